@@ -191,6 +191,13 @@ func addSubtree(t Tree, r *Route, next int, h Handler) (Leaf, error) {
 		return nil, errors.Errorf("duplicated match all bind parameter in position %d", segment.Pos.Offset)
 	}
 
+	// Add the rest of the route to the new subtree first, and only attach the
+	// subtree when that succeeds, so that a rejected route leaves nothing behind.
+	leaf, err := addNextSegment(subtree, r, next+1, h)
+	if err != nil {
+		return nil, err
+	}
+
 	// Determine subtree position by the priority of match styles.
 	subtrees := t.getSubtrees()
 	i := 0
@@ -207,7 +214,7 @@ func addSubtree(t Tree, r *Route, next int, h Handler) (Leaf, error) {
 	}
 	t.setSubtrees(subtrees)
 
-	return addNextSegment(subtree, r, next+1, h)
+	return leaf, nil
 }
 
 // addNextSegment adds next segment of the route to the tree.
